@@ -100,7 +100,7 @@ def run(rep, tier, seed, tr_errors):
                 "fit_circuit) x data sets of 29..47 points with 0..25 % masked points carrying garbage (nan, inf, huge, negative), ascending or "
                 "descending input; each run repeated with different garbage on the masked points; non-trivial = result returned; distinct by (entry, data variant)")
     rep.trusted += ["Coq 8.16.1 kernel; standard-library real-number axioms (Print Assumptions)", "tools/tr_formulas.py (translation of _calculate_residuals, _boukamp_weight, _calculate_pseudo_chisqr)",
-                    "the assembly of each result object (which expression feeds which field) is checked on the implementation per case with tolerance 1e-9, not modelled"]
+                    "tools/tr_assembly.py (reaching-definition analysis of every call site of the two formulas: which argument denotes the data, which the model, which weight); which result field each value is stored in is checked on the implementation per case with tolerance 1e-9, not modelled"]
     if "tr_formulas" in tr_errors:
         rep.oblige("translator:tr_formulas", False, tr_errors["tr_formulas"][-400:])
     else:
@@ -108,7 +108,9 @@ def run(rep, tier, seed, tr_errors):
     thm_ok, names, out = lib.check_props_file(rep, PROPS_FILE, expect=["C08_chisqr_term_is_residual_modulus_squared", "C08_chisqr_is_sum_sq_residuals", "C08_exact_fit_zero"])
     thm_ok2, _, _ = lib.check_props_file(rep, "Props/C08_Mask.v", expect=["C08_masked_values_never_reach_the_views", "C08_analyses_read_only_the_unmasked_views", "C08_masked_values_example"])
     rep.oblige("translator:tr_dataaccess", "tr_dataaccess" not in tr_errors, tr_errors.get("tr_dataaccess", "gen/DataAccess_gen.v regenerated (how each analysis function reads its DataSet)")[-400:])
-    thm_ok = thm_ok and thm_ok2
+    thm_ok3, _, _ = lib.check_props_file(rep, "Props/C08_Assembly.v", expect=["C08_formulas_are_called_with_data_and_model", "C08_every_result_module_uses_the_formulas"])
+    rep.oblige("translator:tr_assembly", "tr_assembly" not in tr_errors, tr_errors.get("tr_assembly", "gen/Assembly_gen.v regenerated (every call site of _calculate_residuals / _calculate_pseudo_chisqr under analysis/: data argument, model argument, weight)")[-400:])
+    thm_ok = thm_ok and thm_ok2 and thm_ok3
     problems = []
     kf = lib.load_known_findings()
     # the last flag: a spectrum with a negative series resistance (negative real parts of Z and Y at low frequencies)
